@@ -47,7 +47,8 @@ def gen(rng, n):
         elif cmd == 'empty_days':
             step = {'cmd': 'empty', 'argv': ['1', '-f'], 'env': {'TRASH_DATE': '2024-01-01T00:00:00'}}
         elif cmd == 'rm':
-            step = {'cmd': 'rm', 'argv': [rng.choice(['*', 'shared*', scen.Layout.j(v, 'sh/*')])]}
+            # also the exact original path of an entry, no wildcard in it: a pattern is a pattern, the directories are the scanner's
+            step = {'cmd': 'rm', 'argv': [rng.choice(['*', 'shared*', scen.Layout.j(v, 'sh/*'), scen.Layout.j(v, 'sh/shared0'), scen.Layout.j(v, 'sh/shared0')])]}
         elif cmd == 'restore':
             step = {'cmd': 'restore', 'argv': [rng.choice(['/', v])], 'stdin': rng.choice(['0\n', '0-2\n', '\n'])}
         else:
